@@ -1,8 +1,8 @@
 ---------------------------- MODULE PicGeom_Trace ----------------------------
 (***************************************************************************)
-(* C19 / C02 (planes): validation of executions recorded from the REAL     *)
-(* picture and sound buffer managers (harness/replay_pic.c) against the    *)
-(* abstract specification PicGeom.tla.                                     *)
+(* C19 / C02 (pictures, sound): validation of executions recorded from the *)
+(* REAL picture and sound buffer managers (harness/replay_pic.c) against   *)
+(* the abstract specification PicGeom.tla.                                 *)
 (*                                                                         *)
 (* One TLC state per trace line.  Each event is                            *)
 (*     IsEv(name) /\ <checks on the logged results> /\ Do<Action>(args)    *)
@@ -14,23 +14,27 @@
 (*    agree with the geometry and the window;                              *)
 (*  - Inside:  the cells of every accepted mapping, RECOMPUTED from the    *)
 (*    logged address (relative to the umem buffer) and the logged stride,  *)
-(*    lie inside the umem allocation;                                      *)
-(*  - Injective: lines of a mapping do not overlap, mappings of different  *)
-(*    planes of one area are disjoint;                                     *)
+(*    lie inside the umem allocation; so does every block view;            *)
+(*  - Injective: lines of a mapping do not overlap, mappings (and views)   *)
+(*    of different planes of one area are disjoint;                        *)
 (*  - Formula: the address of a mapping is the address of the window's     *)
 (*    first cell + cj * stride + ci * mps (logged as a cell coordinate);   *)
 (*  - Content: octets read back equal the position codes of the canvas     *)
 (*    cells (pixel identity by canvas coordinate): CropPreserves, DupSees, *)
 (*    isolation of handles;                                                *)
-(*  - Guard: guard octets around the allocation intact.                    *)
+(*  - WriteOnlySingle: write mappings (plane or block view) are granted    *)
+(*    only while the area has one owner, refused otherwise;                *)
+(*  - Guard: guard octets around the allocation intact, the memory is      *)
+(*    released with its last owner and not before.                         *)
 (* A failing check prints <<"BAD", line, reason>>.  If the event is an      *)
-(* observer (map, peek, check) it is then ignored and validation goes on;  *)
-(* if it changes the buffers (alloc, resize, fill) the real code and the   *)
-(* specification have parted: the rest of that execution is skipped        *)
-(* (halt) up to the next Reset.  The check rejects every execution with a  *)
-(* BAD line; POSTCONDITION Accepted guarantees all lines were consumed.    *)
-(* Executions are concatenated, each starting with a Reset event.          *)
-(* All logged numbers are < 2^30 (the check clamps wild addresses).        *)
+(* observer (map, peek, check, bread) it is then ignored and validation    *)
+(* goes on; if it changes the buffers (alloc, resize, fill, poke, view)    *)
+(* the real code and the specification have parted: the rest of that       *)
+(* execution is skipped (halt) up to the next Reset.  The check rejects     *)
+(* every execution with a BAD line; POSTCONDITION Accepted guarantees all  *)
+(* lines were consumed.  Executions are concatenated, each starting with a *)
+(* Reset event.  All logged numbers are < 2^30 (the check clamps wild      *)
+(* addresses).                                                             *)
 (***************************************************************************)
 EXTENDS PicGeom, IOUtils
 
@@ -50,9 +54,10 @@ IsEv(e) == ~halt /\ l <= Len(Tr) /\ Tr[l].e = e /\ l' = l + 1
 Keep == halt' = FALSE /\ UNCHANGED <<hist, nops, nrs, pick>>
 
 (* observed mapping m = [a, p, off, stride, w (octets per line), nl] *)
-ObsInside(m) == /\ m.off >= 0
-                /\ IF m.w = 0 \/ m.nl = 0 THEN m.off <= asize[m.a]
-                   ELSE m.off + (m.nl - 1) * m.stride + m.w <= asize[m.a]
+\* an empty window has no octet that could be outside
+ObsInside(m) == \/ m.w = 0 \/ m.nl = 0
+                \/ /\ m.off >= 0
+                   /\ m.off + (m.nl - 1) * m.stride + m.w <= asize[m.a]
 ObsLinesDisjoint(m) == m.nl <= 1 \/ m.w <= m.stride
 Lo(m) == m.off
 Hi(m) == IF m.w = 0 \/ m.nl = 0 THEN m.off ELSE m.off + (m.nl - 1) * m.stride + m.w
@@ -82,11 +87,13 @@ FullReport(h, pl) ==
             \/ pl[p][5] # geo.planes[p].mps
          THEN "Report:size" ELSE ObsReason(FullObs(h, pl, p))])
 
+Blank == /\ win' = [h \in Handles |-> NoWin] /\ area' = [h \in Handles |-> 0]
+         /\ view' = [h \in Handles |-> NoView]
+         /\ canv' = <<>> /\ content' = <<>> /\ nextk' = 1
+         /\ last' = [op |-> "init", res |-> "ok"]
+
 TReset == /\ l <= Len(Tr) /\ Tr[l].e = "Reset" /\ l' = l + 1
-          /\ geo' = NoGeo
-          /\ win' = [h \in Handles |-> NoWin] /\ area' = [h \in Handles |-> 0]
-          /\ canv' = <<>> /\ content' = <<>> /\ nextk' = 1
-          /\ last' = [op |-> "init", res |-> "ok"]
+          /\ geo' = NoGeo /\ Blank
           /\ asize' = <<>> /\ maps' = {}
           /\ Keep
 
@@ -98,12 +105,14 @@ TMgr == /\ IsEv("Mgr")
                    hmpre |-> e.hmpre, hmapp |-> e.hmapp, vpre |-> e.vpre, vapp |-> e.vapp,
                    align |-> e.align, aoff |-> e.aoff, basemod |-> 0]
         /\ last' = [op |-> "mgr", res |-> "ok"]
-        /\ UNCHANGED <<win, area, canv, content, nextk, asize, maps>>
+        /\ UNCHANGED <<win, area, view, canv, content, nextk, asize, maps>>
         /\ Keep
 
 TAlloc == /\ IsEv("Alloc")
           /\ LET e == Tr[l]
-                 reason == IF ~Compat(AllocVerdict(geo, e.W, e.H), e.res) THEN "Granularity:alloc" ELSE ""
+                 reason == IF ~Compat(AllocVerdict(geo, e.W, e.H), e.res)
+                           THEN (IF e.res = "ok" THEN "Granularity:alloc-accepted" ELSE "Result:alloc-refused")
+                           ELSE ""
              IN IF reason # "" THEN Hard(reason)
                 ELSE /\ DoAlloc(e.h, e.W, e.H, e.res)
                      /\ asize' = IF e.res = "ok" THEN Append(asize, e.size) ELSE asize
@@ -113,6 +122,8 @@ TDup == /\ IsEv("Dup") /\ DoDup(Tr[l].h, Tr[l].src) /\ UNCHANGED <<asize, maps>>
 
 TFree == /\ IsEv("Free")
          /\ (IF Tr[l].guard # "ok" THEN PrintT(<<"BAD", l, "Inside:guard">>) ELSE TRUE)
+         /\ (IF Tr[l].released # (IF Owners(area[Tr[l].h]) = 1 THEN 1 ELSE 0)
+             THEN PrintT(<<"BAD", l, "Isolation:released">>) ELSE TRUE)
          /\ DoFree(Tr[l].h)
          /\ UNCHANGED <<asize, maps>> /\ Keep
 
@@ -148,7 +159,8 @@ TMap == /\ IsEv("Map")
                reason ==
                  IF ~Compat(pred, e.res)
                  THEN (IF ok /\ pred \in {"busy", "refused"} /\ e.mode = "w" THEN "WriteOnlySingle"
-                       ELSE IF ok THEN "Granularity:map-accepted"
+                       ELSE IF ok THEN (IF InWindow(geo, win[h], n) THEN "Granularity:map-accepted"
+                                        ELSE "Range:map-accepted")
                        ELSE "Result:map-refused")
                  ELSE IF ~ok THEN ""
                  ELSE IF \/ e.hsub # geo.planes[p].hsub \/ e.vsub # geo.planes[p].vsub
@@ -168,12 +180,36 @@ TFill == /\ IsEv("Fill")
                 pred == IF Shared(h) THEN "busy" ELSE "ok"
                 reason == IF e.res = "oob" THEN "Inside"
                           ELSE IF ~Compat(pred, e.res)
-                          THEN (IF e.res = "ok" THEN "WriteOnlySingle" ELSE "Result:fill-refused")
+                          THEN (IF e.res = "ok" THEN "WriteOnlySingle" ELSE "Result:write-refused")
                           ELSE IF e.res = "ok" THEN FullReport(h, e.pl) ELSE ""
             IN IF reason # "" THEN Hard(reason)
                ELSE /\ DoFill(h, e.k, e.res)
                     /\ maps' = IF e.res = "ok"
                                THEN maps \cup {FullObs(h, e.pl, p) : p \in PlaneIds(geo)} ELSE maps
+                    /\ UNCHANGED asize /\ Keep
+
+\* write one cell (x, y in pixels / lines of the window) through its own write mapping
+TPoke == /\ IsEv("Poke")
+         /\ LET e == Tr[l]
+                h == e.h
+                p == e.p + 1
+                r == PokeReq(geo, p, e.x, e.y)
+                pred == MapVerdict(geo, win[h], p, r, Shared(h), "w")
+                m == [a |-> area[h], p |-> p, off |-> e.off, stride |-> 0, w |-> geo.planes[p].mps, nl |-> 1]
+                got == IF e.res = "oob" THEN "ok" ELSE e.res
+                reason ==
+                  IF ~Compat(pred, got)
+                  THEN (IF got = "ok" /\ pred \in {"busy", "refused"} THEN "WriteOnlySingle"
+                        ELSE IF got = "ok"
+                        THEN (IF InWindow(geo, win[h], MapNorm(geo, win[h], r)) THEN "Granularity:map-accepted"
+                              ELSE "Range:map-accepted")
+                        ELSE "Result:write-refused")
+                  ELSE IF e.res = "oob" THEN "Inside"
+                  ELSE IF e.res # "ok" THEN ""
+                  ELSE ObsReason(m)
+            IN IF reason # "" THEN Hard(reason)
+               ELSE /\ DoPoke(h, p, e.x, e.y, e.k, e.res)
+                    /\ maps' = IF e.res = "ok" THEN maps \cup {m} ELSE maps
                     /\ UNCHANGED asize /\ Keep
 
 \* e.bytes[p] = octets read back through plane p, line by line
@@ -199,21 +235,23 @@ TPeek == /\ IsEv("Peek")
          /\ LET e == Tr[l]
                 h == e.h
                 p == e.p + 1
-                r == [ho |-> e.x, vo |-> e.y, hs |-> HGran(geo, p), vs |-> VGran(geo, p)]
+                r == PokeReq(geo, p, e.x, e.y)
                 pred == MapVerdict(geo, win[h], p, r, FALSE, "r")
                 n == MapNorm(geo, win[h], r)
                 m == [a |-> area[h], p |-> p, off |-> e.off, stride |-> 0, w |-> geo.planes[p].mps, nl |-> 1]
+                got == IF e.res = "oob" THEN "ok" ELSE e.res    \* oob: accepted, address outside
                 reason ==
-                  IF e.res = "oob" THEN "Inside"
-                  ELSE IF ~Compat(pred, e.res)
-                  THEN (IF e.res = "ok" THEN "Granularity:map-accepted" ELSE "Result:map-refused")
+                  IF ~Compat(pred, got)
+                  THEN (IF got = "ok" THEN (IF InWindow(geo, win[h], n) THEN "Granularity:map-accepted"
+                                            ELSE "Range:map-accepted")
+                        ELSE "Result:map-refused")
+                  ELSE IF e.res = "oob" THEN "Inside"
                   ELSE IF e.res # "ok" THEN ""
                   ELSE IF ObsReason(m) # "" THEN ObsReason(m)
                   ELSE IF \/ Len(e.bytes) # geo.planes[p].mps
                           \/ \E b \in 0..(geo.planes[p].mps - 1) :
                                LET x == ByteAt(geo, content[area[h]], p,
-                                               PX0(geo, win[h], p) + n.ho \div HGran(geo, p),
-                                               PY0(geo, win[h], p) + n.vo \div VGran(geo, p), b)
+                                               CX0(geo, win[h], p, n), CY0(geo, win[h], p, n), b)
                                IN x # -1 /\ x # e.bytes[b + 1]
                        THEN "Content"
                   ELSE ""
@@ -222,9 +260,59 @@ TPeek == /\ IsEv("Peek")
                     /\ maps' = IF e.res = "ok" THEN maps \cup {m} ELSE maps
                     /\ UNCHANGED asize /\ Keep
 
+\* block view of plane p of buffer src: e.off relative to the umem buffer, e.d
+\* relative to the mapping of the whole window of that plane, e.stride as the
+\* picture API reports it (0 for sound), e.size as the block API reports it
+TView == /\ IsEv("View")
+         /\ LET e == Tr[l]
+                s == e.src
+                p == e.p + 1
+                x == [p |-> p, w |-> win[s], stride |-> e.stride, size |-> e.size]
+                m == [a |-> area[s], p |-> p, off |-> e.off, stride |-> 0, w |-> e.size, nl |-> 1]
+                reason == IF e.res # "ok" THEN "Result:view-refused"
+                          ELSE IF ObsReason(m) # "" THEN ObsReason(m)
+                          ELSE IF e.d # 0 THEN "Formula:view"
+                          ELSE ""
+            IN IF reason # "" THEN Hard(reason)
+               ELSE /\ DoView(e.h, s, x, e.res)
+                    /\ maps' = maps \cup {m}
+                    /\ UNCHANGED asize /\ Keep
+
+TBRead == /\ IsEv("BRead")
+          /\ LET e == Tr[l]
+                 h == e.h
+                 x == view[h]
+                 reason == IF e.res = "oob" THEN "Inside"
+                           ELSE IF e.res # "ok" THEN "Result:read-refused"
+                           ELSE IF Len(e.bytes) # x.size THEN "Report:size"
+                           ELSE IF \E i \in 0..(x.size - 1) :
+                                     LET b == ViewByte(geo, content[area[h]], x, i)
+                                     IN b # -1 /\ b # e.bytes[i + 1]
+                                THEN "Content"
+                           ELSE ""
+             IN IF reason # "" THEN Soft(reason)
+                ELSE /\ DoBRead(h) /\ UNCHANGED <<asize, maps>> /\ Keep
+
+TBPoke == /\ IsEv("BPoke")
+          /\ LET e == Tr[l]
+                 h == e.h
+                 pred == IF Shared(h) THEN "busy" ELSE "ok"
+                 reason == IF ~ViewInWindow(geo, view[h], e.i) THEN "Unsupported:bpoke-outside-window"
+                           ELSE IF ~Compat(pred, e.res)
+                           THEN (IF e.res = "ok" THEN "WriteOnlySingle" ELSE "Result:write-refused")
+                           ELSE ""
+             IN IF reason # "" THEN Hard(reason)
+                ELSE /\ DoBPoke(h, e.i, e.v, e.res) /\ UNCHANGED <<asize, maps>> /\ Keep
+
 TEnd == /\ IsEv("End")
         /\ (IF Tr[l].corrupt # 0 THEN PrintT(<<"BAD", l, "Inside:guard">>) ELSE TRUE)
+        /\ (IF Tr[l].live # 0 THEN PrintT(<<"BAD", l, "Isolation:leak">>) ELSE TRUE)
         /\ Stay /\ halt' = FALSE
+
+\* the process running the real code died (assertion, signal): never acceptable
+TCrash == IsEv("Crash") /\ Hard("Crash")
+\* a command of the real code did not return (per-command alarm of the harness)
+THang == IsEv("Hang") /\ Hard("Hang")
 
 \* after a diverging mutator: skip to the next execution
 TSkip == /\ halt /\ l <= Len(Tr) /\ Tr[l].e # "Reset" /\ l' = l + 1 /\ Stay /\ halt' = TRUE
@@ -232,13 +320,15 @@ TSkip == /\ halt /\ l <= Len(Tr) /\ Tr[l].e # "Reset" /\ l' = l + 1 /\ Stay /\ h
 TInit == /\ l = 1 /\ asize = <<>> /\ maps = {} /\ halt = FALSE
          /\ geo = NoGeo
          /\ win = [h \in Handles |-> NoWin] /\ area = [h \in Handles |-> 0]
+         /\ view = [h \in Handles |-> NoView]
          /\ canv = <<>> /\ content = <<>> /\ nextk = 1
          /\ last = [op |-> "init", res |-> "ok"]
          /\ hist = <<>> /\ nops = 0 /\ nrs = 0 /\ pick = ""
-TNext == TSkip \/ TReset \/ TMgr \/ TAlloc \/ TDup \/ TFree \/ TResize \/ TMap \/ TFill \/ TCheck \/ TPeek \/ TEnd
+TNext == \/ TSkip \/ TReset \/ TMgr \/ TAlloc \/ TDup \/ TFree \/ TResize \/ TMap \/ TFill \/ TPoke
+         \/ TCheck \/ TPeek \/ TView \/ TBRead \/ TBPoke \/ TEnd \/ TCrash \/ THang
 TSpec == TInit /\ [][TNext]_tvars
 
-NoGeos == {}
+NoGeoSet(t) == {}
 Accepted == LET d == TLCGet("stats").diameter IN
             IF d - 1 = Len(Tr) THEN PrintT(<<"TRACE_ACCEPTED", Len(Tr)>>)
                                ELSE PrintT(<<"TRACE_REJECTED_AT", d>>)
